@@ -13,7 +13,7 @@ import sys
 
 VERIF = os.path.dirname(os.path.dirname(os.path.abspath(__file__)))
 EXTRA = {  # other checks worth running for a change seeded against a property
-    "C02a": ["C13"], "C02c": ["C17"], "C02f": ["C16"], "C01f": ["C16"], "C08f": ["C16"], "C03c": ["C16"], "C06d": ["C15"], "C05a": ["C06"], "C06b": ["C15"], "C15b": ["C09"], "C09b": ["C15"],
+    "C02a": ["C13"], "C02c": ["C17"], "C02f": ["C16"], "C01f": ["C16"], "C08f": ["C16"], "C03c": ["C16"], "C06d": ["C15"], "C05a": ["C06"], "C06b": ["C15"], "C15b": ["C09"], "C09b": ["C15"], "C20k": ["C15"],
 }
 HISTORY = {  # what had to be strengthened before the change was caught (filled from the campaign log)
     "C01a": "missed at first: no input held the same picture twice -> added stamp_twice / copy_block mutations",
@@ -52,10 +52,23 @@ HISTORY = {  # what had to be strengthened before the change was caught (filled 
     "C13j": "missed at first: every workbook used the 1900 date system -> DATEMODE 1 as a feature (and on a fifth of the clean workbooks), dates claimed in the workbook's own system",
     "C14i": "missed at first: every image XObject was drawn on one page only -> feature shared-image-xobject (one object on every page; twin: equal bytes in separate objects)",
     "C14j": "missed at first: every picture relationship had its media part -> feature missing-media-part (dangling relationship in the middle; twin: at the end)",
+    "C01k": "missed at first: no container pointed at itself -> 7z end headers that are 'encoded headers' describing themselves (one- and two-step cycles, all checksums right)",
+    "C02k": "missed at first: comments held plain paragraphs only -> office:annotation bodies with bulleted lists (ODT, ODP, ODS), before or after the cell paragraph",
+    "C02l": "missed at first: a PPT slide had at most one title-typed text -> a second title / centre-title typed block after the bodies on 15 % of the slides",
+    "C04k": "missed at first: streams were opened and read one image at a time -> every image's stream is opened first and read afterwards (document and unit view), stream objects must not be shared; ODP feature shared-picture",
+    "C04l": "missed at first: archive members' folder / path were not judged -> must lie below '<archive path>!'; archives with absolute member names",
+    "C05k": "missed at first: the CLI's stdout was a StringIO, which accepts lone surrogates -> a strict UTF-8 text stream; TAR with Latin-1 member names (surrogateescape in the file metadata)",
+    "C08l": "missed at first: every generated PDF was below 10 KiB -> feature large-image (20-120 KB pictures) in a third of the encrypted PDFs",
+    "C13k": "missed at first: ODP cell paragraphs were direct children of the cell -> bulleted cells (text:list) and paragraph-plus-bullet cells",
+    "C13l": "missed at first: no slide table had merged cells -> feature merged-cells (gridSpan/hMerge, rowSpan/vMerge; twin without the attributes)",
+    "C14k": "missed at first: picture part names always had lower-case extensions -> upper- and title-case extensions in ODF packages",
+    "C14l": "missed at first: every generated JPEG had the same five segments and every XLSX picture an extent -> six segment layouts (payloads ending in 0xFF, clamped tables, progressive, restart interval, ICC/Exif) and two-cell anchors without extent (which also exposed the anchor-order defect fixed in the repository)",
+    "C20k": "missed by C20 at first (single-threaded; caught by C15's AES stress group) -> C20 now runs four concurrent callers against pre-computed reference answers",
 }
-# changes the quick tier missed when they arrived (rounds 4 and 5, from the campaign logs); what was widened is in DESIGN §19-§20
+# changes the quick tier missed when they arrived (rounds 4 to 6, from the campaign logs); what was widened is in DESIGN §19-§20
 MISSED_ON_ARRIVAL = set("""C01g C01h C02h C03g C04g C04h C05g C05h C08g C08h C09g C09h C10h C11g C12g C12h C13h C14g C14h C16g C16h C19g C07h C15g
-C01i C01j C02i C03i C03j C04j C05i C05j C06i C06j C07j C08i C08j C09j C10i C10j C11i C12i C12j C13i C13j C14i C14j C15i C16j C17j C19j""".split())
+C01i C01j C02i C03i C03j C04j C05i C05j C06i C06j C07j C08i C08j C09j C10i C10j C11i C12i C12j C13i C13j C14i C14j C15i C16j C17j C19j
+C01k C02k C02l C04k C04l C05k C08l C13k C13l C06l C07k C09l C10l C12k C12l C14k C14l C15k C15l C16k C16l C17k C20k""".split())
 
 
 def history_for(sid):
